@@ -49,6 +49,9 @@ def dep_params(shape: str, k, value, *more):
     raise ValueError(shape)
 
 
+CALLER_LISTS: list = []  # option lists handed to VarRange / IntList (cleared by the driver that wants to use them)
+
+
 def build_mh(desc):
     from geneticengine.grammar.metahandlers.floats import FloatList, FloatRange
     from geneticengine.grammar.metahandlers.ints import IntervalRange, IntList, IntRange
@@ -60,13 +63,15 @@ def build_mh(desc):
     if name == "IntRange":
         return IntRange(p[0], p[1])
     if name == "IntList":
-        return IntList(list(p[0]))
+        CALLER_LISTS.append(list(p[0]))  # the list object the CALLER keeps (and may go on using for the next experiment)
+        return IntList(CALLER_LISTS[-1])
     if name == "FloatRange":
         return FloatRange(p[0], p[1])
     if name == "FloatList":
         return FloatList(list(p[0]))
     if name == "VarRange":
-        return VarRange(list(p[0]))
+        CALLER_LISTS.append(list(p[0]))
+        return VarRange(CALLER_LISTS[-1])
     if name == "ListSizeBetween":
         return ListSizeBetween(p[0], p[1])
     if name == "LSBWLO":
